@@ -189,19 +189,31 @@ def err_exit_positions(b):
 
 
 def residual_source(b, e):
-    """for an err exit through from_residual: the call whose Result was `?`-ed (pos, term) or None"""
+    """for an err exit through from_residual: the call whose Result was `?`-ed (pos, term) or None.  A `?` inside an inlined
+    callee followed by the caller's `?` on the helper's result is traced back to the innermost call."""
     if e.get('src') != 'residual':
         return None
-    t = e['term']
+    return _residual_of(b, e['term'], 4)
+
+
+def _residual_of(b, t, depth):
     for org in origins(b, t['args'][0]):
         if org[0] == 'place' and 'as Break' in org[1]['p']:
             cl = org[1]['l']
             # cl = Try::branch(x)
             for pos, tt in b.iter_calls():
                 if tt['dst']['l'] == cl and not tt['dst']['p'] and call_matches(tt, r'Try>::branch$'):
-                    for o2 in origins(b, tt['args'][0]):
-                        if o2[0] not in ('param', 'const', 'place') and o2[1].get('k') == 'call':
+                    cands = [o2 for o2 in origins(b, tt['args'][0]) if o2[0] not in ('param', 'const', 'place') and o2[1].get('k') == 'call']
+                    for o2 in cands:
+                        if call_matches(o2[1], r'FromResidual.*::from_residual$') and depth > 0:
+                            r = _residual_of(b, o2[1], depth - 1)
+                            if r is not None:
+                                return r
+                    for o2 in cands:
+                        if not call_matches(o2[1], r'FromResidual.*::from_residual$'):
                             return o2
+                    if cands:
+                        return cands[0]
     return None
 
 
